@@ -5,7 +5,7 @@ var multiKinds = []string{"sslice", "islice", "fslice", "smap", "bool", "string"
 
 // Profiles - random driver profiles, one per property (direction B beyond the bounded alphabets).
 var Profiles = map[string]Profile{
-	"C01": {Sets: 0.15, Kinds: scalarKinds, MaxOpts: 5, Cmds: 0.3, Wrapper: 0.3, Help: 0.2, Wild: true, MaxArgv: 6, Modes: []int{0, 1, 2}, Ums: []int{0, 2}, Ro: 0.05},
+	"C01": {Sets: 0.15, Lower: 0.15, Kinds: scalarKinds, MaxOpts: 5, Cmds: 0.3, Wrapper: 0.3, Help: 0.2, Wild: true, MaxArgv: 6, Modes: []int{0, 1, 2}, Ums: []int{0, 2}, Ro: 0.05},
 	"C02": {Sets: 0.15, Env: 0.3, Kinds: multiKinds, MaxOpts: 4, Cmds: 0.3, Wild: true, MaxArgv: 8, Modes: []int{0, 1, 2}, Ums: []int{0, 2}, Ro: 0.05, Lower: 0.2},
 	"C03": {Kinds: AllKinds, MaxOpts: 5, Cmds: 0.6, Help: 0.1, Wrapper: 0.2, Wild: true, MaxArgv: 7,
 		Modes: []int{0, 1, 2}, Ums: []int{0, 1, 2, 2}, Ro: 0.25, LoneDash: 0.1},
